@@ -112,7 +112,7 @@ def cases(seed, tier):
         add('2d', rest[j][0], rest[j][1], 'edge_' + rest[j][2])
     # the same arithmetic edge through the other file forms (seeded subsets)
     keys = sorted(ep)
-    small = [k for k in keys if k[0] <= 700]
+    small = [k for k in keys if 2 <= k[0] <= 700]          # compress needs at least 2 rows (C15's domain)
     for form, pool, cnt in (('3d', keys, 100), ('4d', keys, 100), ('ext1', keys, 40), ('int', keys, 40),
                             ('bscale_f32', keys, 100), ('bscale_int', keys, 100), ('compressed', small, 100),
                             ('compressed_bscale', small, 60)):
